@@ -2,6 +2,8 @@
   C28 — loaders never read outside their search path; choice/prefix resolution.
 -/
 import JinjaV.Model.Path
+import JinjaV.Model.PathProg
+import JinjaV.Gen.SplitPath
 
 namespace JinjaV.C28
 open JinjaV.Path
@@ -259,6 +261,166 @@ theorem prefix_dispatch (mapping : List (Str × Loader)) (delim name : Str) (s :
     | some l =>
       simp only [hl] at h
       exact ⟨p, r, l, splitFirst_spec delim name p r hd hs, hl, h⟩
+
+-- the whole body of split_template_path as a program read from the source ------------------------
+theorem hasDisj_sound (sem : Sem) (sep : Char) (altsep : Option Char) (p : Str) (d c : Cond)
+    (h : hasDisj d c = true) (hd : evalCond sem sep altsep p d = true) : evalCond sem sep altsep p c = true := by
+  induction c with
+  | or a b iha ihb =>
+    unfold hasDisj at h
+    simp only [Bool.or_eq_true, decide_eq_true_eq] at h
+    rcases h with h | h | h
+    · subst h; exact hd
+    · simp [evalCond, iha h]
+    · simp [evalCond, ihb h]
+  | _ => unfold hasDisj at h; simp at h; subst h; exact hd
+
+theorem hasConj_sound (sem : Sem) (sep : Char) (altsep : Option Char) (p : Str) (d c : Cond)
+    (h : hasConj d c = true) (hc : evalCond sem sep altsep p c = true) : evalCond sem sep altsep p d = true := by
+  induction c with
+  | and a b iha ihb =>
+    unfold hasConj at h
+    simp only [Bool.or_eq_true, decide_eq_true_eq] at h
+    simp only [evalCond, Bool.and_eq_true] at hc
+    rcases h with h | h | h
+    · subst h; simp [evalCond, hc]
+    · exact iha h hc.1
+    · exact ihb h hc.2
+  | _ => unfold hasConj at h; simp at h; subst h; exact hc
+
+theorem runPieces_safe (sem : Sem) (g : SplitProg) (hg : safeProg g = true) (sep : Char) (altsep : Option Char)
+    (pieces ps : List Str) (h : runPieces sem g sep altsep pieces = some ps) :
+    ∀ p ∈ ps, (∃ raw ∈ pieces, p = evalEx sem g.store raw) ∧ SafePiece sep altsep p := by
+  unfold safeProg at hg
+  simp only [Bool.and_eq_true] at hg
+  obtain ⟨⟨⟨⟨hsep, halt⟩, hpar⟩, hne⟩, hdot⟩ := hg
+  induction pieces generalizing ps with
+  | nil => simp [runPieces] at h; subst h; simp
+  | cons piece rest ih =>
+    unfold runPieces at h
+    by_cases hrej : evalCond sem sep altsep piece g.reject = true
+    · simp [hrej] at h
+    · simp only [hrej, Bool.false_eq_true, if_false] at h
+      cases hr : runPieces sem g sep altsep rest with
+      | none => simp [hr] at h
+      | some ps' =>
+        simp only [hr] at h
+        have ihr := ih ps' hr
+        have tail : ∀ p ∈ ps', (∃ raw ∈ piece :: rest, p = evalEx sem g.store raw) ∧ SafePiece sep altsep p := by
+          intro p hp
+          obtain ⟨⟨raw, hraw, he⟩, hs⟩ := ihr p hp
+          exact ⟨⟨raw, by simp [hraw], he⟩, hs⟩
+        by_cases hkeep : evalCond sem sep altsep piece g.keep = true
+        · simp only [hkeep, if_true] at h
+          injection h with h; subst h
+          intro p hp
+          simp only [List.mem_cons] at hp
+          rcases hp with rfl | hp
+          · refine ⟨⟨piece, by simp, rfl⟩, ?_⟩
+            have k1 := hasConj_sound sem sep altsep piece _ _ hne hkeep
+            have k2 := hasConj_sound sem sep altsep piece _ _ hdot hkeep
+            have r1 : evalCond sem sep altsep piece (.sepIn g.store) ≠ true :=
+              fun e => hrej (hasDisj_sound sem sep altsep piece _ _ hsep e)
+            have r2 : evalCond sem sep altsep piece (.altIn g.store) ≠ true :=
+              fun e => hrej (hasDisj_sound sem sep altsep piece _ _ halt e)
+            have r3 : evalCond sem sep altsep piece (.eqLit g.store pardir) ≠ true :=
+              fun e => hrej (hasDisj_sound sem sep altsep piece _ _ hpar e)
+            simp only [evalCond] at k1 k2 r1 r2 r3
+            refine ⟨?_, ?_, ?_, ?_, ?_⟩
+            · intro e; rw [e] at k1; simp at k1
+            · intro e; rw [e] at k2; simp at k2
+            · intro e; rw [e] at r3; simp at r3
+            · intro hm; apply r1; simpa using hm
+            · intro a ha hm; apply r2; simp [hasAlt, ha]; exact hm
+          · exact tail p hp
+        · simp only [hkeep, Bool.false_eq_true, if_false] at h
+          injection h with h; subst h; exact tail
+
+/-- **prog_split_safe**: for EVERY program of the shape `split_template_path` has, every interpretation of the
+    `str → str` functions it applies, every `os.sep`/`os.path.altsep` and every name: if the stored expression is the
+    one the refusing and the keeping branch test (`safeProg`), every returned piece is non-empty, is not `.` or `..`,
+    and contains neither separator. -/
+theorem prog_split_safe (sem : Sem) (g : SplitProg) (hg : safeProg g = true) (sep : Char) (altsep : Option Char)
+    (name : Str) (ps : List Str) (h : runProg sem g sep altsep name = some ps) :
+    ∀ p ∈ ps, SafePiece sep altsep p :=
+  fun p hp => (runPieces_safe sem g hg sep altsep _ ps h p hp).2
+
+/-- … and contains no `/`: because it is an untransformed piece of `split("/")`, or because `/` is one of the
+    separators that are refused (true on every platform: `os.sep` or `os.path.altsep` is `/`). -/
+theorem prog_split_no_slash (sem : Sem) (g : SplitProg) (hg : safeProg g = true) (sep : Char) (altsep : Option Char)
+    (name : Str) (ps : List Str) (h : runProg sem g sep altsep name = some ps)
+    (hs : g.store = [] ∨ sep = '/' ∨ altsep = some '/') :
+    ∀ p ∈ ps, '/' ∉ p := by
+  intro p hp
+  obtain ⟨⟨raw, hraw, he⟩, hsafe⟩ := runPieces_safe sem g hg sep altsep _ ps h p hp
+  rcases hs with hs | hs | hs
+  · rw [hs] at he
+    simp only [evalEx, List.foldl_nil] at he
+    subst he
+    exact splitSlash_no_slash name p hraw
+  · subst hs; exact hsafe.2.2.2.1
+  · exact hsafe.2.2.2.2 '/' hs
+
+/-- the interpreter on the reference program is the hand model (so the program semantics is the one the
+    correspondence run ties to the real function) -/
+theorem refProg_is_model (sem : Sem) (sep : Char) (altsep : Option Char) (name : Str) :
+    runProg sem refProg sep altsep name = splitTemplatePath sep altsep name := by
+  unfold runProg splitTemplatePath
+  generalize splitSlash name = pieces
+  induction pieces with
+  | nil => rfl
+  | cons piece rest ih =>
+    have e1 : evalCond sem sep altsep piece refProg.reject = bad sep altsep piece := by
+      simp [refProg, evalCond, evalEx, bad, Bool.or_assoc]
+    have e2 : evalCond sem sep altsep piece refProg.keep = (!piece.isEmpty && piece != dot) := by
+      simp [refProg, evalCond, evalEx, bne]
+    have e3 : evalEx sem refProg.store piece = piece := rfl
+    unfold runPieces checkPieces
+    rw [ih, e1, e2, e3]
+    by_cases hb : bad sep altsep piece = true
+    · simp [hb]
+    · simp only [hb, Bool.false_eq_true, if_false]
+      cases checkPieces sep altsep rest <;> rfl
+
+-- over the program READ from loaders.py ----------------------------------------------------------
+
+/-- **gen_prog_safe**: the body of `split_template_path` as read from the source stores exactly the value it tested -/
+theorem gen_prog_safe : safeProg Gen.SplitPath.prog = true := by decide
+
+/-- **gen_split_safe**: the function as read from the source, for every name, every interpretation of the functions
+    it applies and any separators with `/` among them, returns only pieces that are non-empty, not `.`, not `..`,
+    free of `/`, `os.sep` and `os.path.altsep` -/
+theorem gen_split_safe (sem : Sem) (sep : Char) (altsep : Option Char) (name : Str) (ps : List Str)
+    (hs : sep = '/' ∨ altsep = some '/')
+    (h : runProg sem Gen.SplitPath.prog sep altsep name = some ps) :
+    ∀ p ∈ ps, SafePiece sep altsep p ∧ '/' ∉ p :=
+  fun p hp => ⟨prog_split_safe sem _ gen_prog_safe sep altsep name ps h p hp,
+    prog_split_no_slash sem _ gen_prog_safe sep altsep name ps h (Or.inr hs) p hp⟩
+
+/-- **gen_split_join_inside**: joining any search directory with what the function (as read from the source) returns
+    appends exactly the returned pieces as path components — none is `..`, none is absolute, none hides a separator —
+    so the joined path stays below the search directory -/
+theorem gen_split_join_inside (sem : Sem) (sep : Char) (altsep : Option Char) (root name : Str) (ps : List Str)
+    (hs : sep = '/' ∨ altsep = some '/')
+    (h : runProg sem Gen.SplitPath.prog sep altsep name = some ps) :
+    components (posixJoin root ps) = components root ++ ps ∧ pardir ∉ ps ∧ dot ∉ ps := by
+  have hall := gen_split_safe sem sep altsep name ps hs h
+  refine ⟨join_inside root ps (fun p hp => ⟨(hall p hp).1.1, (hall p hp).2⟩), ?_, ?_⟩
+  · intro hm; exact (hall _ hm).1.2.2.1 rfl
+  · intro hm; exact (hall _ hm).1.2.1 rfl
+
+/-- a transformation after the test is not safe in general: an interpretation exists under which the program of the
+    shape `append(f(piece))` returns `..` (why `safeProg` has to fail for such a program) -/
+theorem post_transform_can_escape : ∃ sem : Sem,
+    runProg sem { refProg with store := [{ fn := "f", args := [] }] } '/' none ['x'] = some [pardir] ∧
+    safeProg { refProg with store := [{ fn := "f", args := [] }] } = false := by
+  refine ⟨fun _ _ _ => pardir, ?_, ?_⟩ <;> decide
+
+-- non-vacuity
+example : runProg semId Gen.SplitPath.prog '/' none "a/./b.html//c".toList = some ["a".toList, "b.html".toList, "c".toList] ∧
+    runProg semId Gen.SplitPath.prog '/' none "a/../x".toList = none ∧
+    runProg semId Gen.SplitPath.prog '\\' (some '/') "a\\b".toList = none := by decide
+
 
 -- non-vacuity
 example : splitTemplatePath '/' none "a/./b.html//c".toList = some ["a".toList, "b.html".toList, "c".toList] ∧
